@@ -86,8 +86,15 @@ def make(shape: Dict[str, Any]) -> Any:
             body: List[bytes] = [qb] if lead else []
             body += [wire.sym_octet(ctx.int(f'octet{i}', 0, 255)) for i in range(P)]
             port = ctx.int('port', 0, 65535)
+            if shape.get('chain'):
+                from props.c02 import chain_packet
+
+                direction, cells, broken = shape['chain']
+                test_pkt = chain_packet(ctx, cells, broken, direction, 'chain_')[0]  # a deep compression-pointer chain (query: forward, response: backward)
+            else:
+                test_pkt = SymPacket(hdr + body)
             try:
-                proto.datagram_received(SymPacket(hdr + body), ('10.0.0.9', port))  # type: ignore[arg-type]
+                proto.datagram_received(test_pkt, ('10.0.0.9', port))  # type: ignore[arg-type]
                 loop.run_ready()
             except Exception as e:
                 ctx.check(False, f'{type(e).__name__} escaped datagram_received into the event loop')
@@ -251,6 +258,10 @@ def obligations(tier: str) -> List[Obligation]:
         if name in ('query-question', 'response-answer'):
             shape2 = {'payload': 1, 'counts': counts, 'flags': flags, 'lead_question': lead, 'timing': 'symbolic', 'gap_max': 1200}
             obs.append(Obligation(f'survive[{name};payload=1;symbolic-timing]', make(shape2), 'survive-timing', shape2, timeout=280 if tier == 'quick' else 1500))
+    chains = [('forward', 1100, None), ('backward', 1100, None), ('forward', 8, 4)] + ([] if tier == 'quick' else [('forward', 4470, None), ('backward', 4460, None), ('backward', 8, 4), ('forward', 130, None), ('backward', 130, None)])
+    for direction, cells, broken in chains:
+        shape = {'payload': 0, 'counts': [0, 0, 0, 0], 'flags': 0, 'lead_question': False, 'timing': 'fixed', 'chain': [direction, cells, broken]}
+        obs.append(Obligation(f'survive[pointer-chain {direction};cells={cells};broken={broken if broken is not None else "-"}]', make(shape), 'survive-chain', shape, timeout=280 if tier == 'quick' else 1500))
     obs.append(Obligation('oversize-guard', make_oversize({}), 'oversize', {}, timeout=120))
     obs.append(Obligation('echo-safety', make_echo({}), 'echo', {}, timeout=120))
     return obs
@@ -269,7 +280,7 @@ META = {
         '_ServiceBrowserBase.async_update_records', 'ServiceInfo.async_update_records',
     ],
     'bounds': {'symbolic payload octets': '1..3 (quick) / 3..5 (thorough)', 'port': [0, 65535], 'timing': 'content obligations: fixed instants and jitter draws at their lower bound; survive[*;symbolic-timing]: t0, gaps 0..1200 ms and jitter symbolic with one symbolic payload octet', 'datagram length (guard lemma)': [0, 70000], 'label octets (echo lemma)': [1, 63]},
-    'outside': ['streams of more than one adversarial datagram; datagrams longer than 12 + question + 6 octets (the RecursionError of a 2 KB pointer chain is NOT reached)', 'real sockets'],
+    'outside': ['streams of more than one adversarial datagram', 'datagrams with more than 12 + question + 6 free octets other than the enumerated compression-pointer chains (survive[pointer-chain *]: 3..4470 pointer cells, id / label octet / TTL / port and in the broken variants the low octet of one pointer symbolic)', 'real sockets'],
     'stubs': env.STUBS + ['test datagram presented as vkit.pkt.SymPacket', '`hash` in zeroconf._dns returns 0 while the symbolic datagram is processed',
                           'echo lemma: decode(errors="replace") of an opaque label returns a text whose re-encoded length m is a solver variable with n <= m <= 3n'],
     'float_sites': ['const._DNS_PTR_MIN_TTL = 1125.0 (exact)'],
